@@ -1787,6 +1787,26 @@ func ExecDistinct(query *Query, current []any) ([]any, error) {
 	return slice, nil
 }
 
+// resolveAsync replaces the slots of completed ASYNC calls by their values
+func resolveAsync(rows []any) {
+	for _, row := range rows {
+		row, ok := row.(Map)
+		if !ok {
+			continue
+		}
+		for key, value := range row {
+			for {
+				slot, ok := value.(*any)
+				if !ok {
+					break
+				}
+				value = *slot
+			}
+			row[key] = value
+		}
+	}
+}
+
 func ExecOrderBy(query *Query, current []any) ([]any, error) {
 	if query.orderByDefinition == nil {
 		return current, nil
@@ -1852,6 +1872,11 @@ func (query *Query) exec() (result any, err error) {
 	rs, err = ExecSelect(query, rs)
 	if err != nil {
 		return nil, err
+	}
+	if query.distinct || len(query.orderByDefinition) > 0 {
+		// DISTINCT and ORDER BY work on the values of ASYNC calls, not on their pending slots
+		query.wg.Wait()
+		resolveAsync(rs)
 	}
 	rs, err = ExecDistinct(query, rs)
 	if err != nil {
